@@ -419,6 +419,10 @@ int reb_simulation_remove_particle(struct reb_simulation* const r, int index, in
 		return 0;
 	}
 	if(keep_sorted){
+        if (r->tree_root){
+		    reb_simulation_error(r, "REBOUND cannot remove a particle a tree and keep the particles sorted. Did not remove particle.");
+		    return 0;
+        }
 	    r->N--;
         if(r->free_particle_ap){
             r->free_particle_ap(&r->particles[index]);
@@ -429,10 +433,6 @@ int reb_simulation_remove_particle(struct reb_simulation* const r, int index, in
 		for(unsigned int j=index; j<r->N; j++){
 			r->particles[j] = r->particles[j+1];
 		}
-        if (r->tree_root){
-		    reb_simulation_error(r, "REBOUND cannot remove a particle a tree and keep the particles sorted. Did not remove particle.");
-		    return 0;
-        }
 	}else{
         if (r->tree_root){
             // Just flag particle, will be removed in update_tree.
